@@ -69,6 +69,8 @@ class Ctx:
         self.counters = {}
         self.notes = []            # free-form per-path notes (yield clauses etc.)
         self.covers = set()
+        self.fresh_log = []        # every fresh constant created on this path, in order
+        self.conds = []            # path conditions proper (branches and non-axiom assumptions), in order
 
     # ---- fresh symbols (deterministic per path prefix)
     def _name(self, base):
@@ -79,6 +81,7 @@ class Ctx:
     def fresh_int(self, base="i", register=False):
         nm = self._name(base)
         t = z3.Int(nm)
+        self.fresh_log.append(t)
         if register:
             self.inputs[nm] = t
         return t
@@ -86,6 +89,7 @@ class Ctx:
     def fresh_bool(self, base="b", register=False):
         nm = self._name(base)
         t = z3.Bool(nm)
+        self.fresh_log.append(t)
         if register:
             self.inputs[nm] = t
         return t
@@ -100,6 +104,7 @@ class Ctx:
     def fresh_const(self, base, sort, register=False):
         nm = self._name(base)
         t = z3.Const(nm, sort)
+        self.fresh_log.append(t)
         if register:
             self.inputs[nm] = t
         return t
@@ -113,17 +118,20 @@ class Ctx:
         self.stats.solver_calls += 1
         return r
 
-    def assume(self, f):
+    def assume(self, f, axiom=False):
         if isinstance(f, bool):
             if not f:
                 raise PathEnd()
             return
-        f = z3.simplify(f)
+        if not axiom:
+            f = z3.simplify(f)
         if z3.is_true(f):
             return
         if z3.is_false(f):
             raise PathEnd()
         self.pc.append(f)
+        if not axiom:
+            self.conds.append(f)
         self.solver.add(f)
 
     def assume_checked(self, f):
@@ -160,6 +168,7 @@ class Ctx:
             side = bool(d)
             f = cond if side else z3.Not(cond)
             self.pc.append(f)
+            self.conds.append(f)
             self.solver.add(f)
             return side
         # feasibility of the two sides (short budget; `unknown` counts as feasible, which is sound: an infeasible path
@@ -188,6 +197,7 @@ class Ctx:
         self.di += 1
         f = cond if side else z3.Not(cond)
         self.pc.append(f)
+        self.conds.append(f)
         self.solver.add(f)
         return side
 
@@ -204,7 +214,7 @@ class Ctx:
             self.solver.set("timeout", min(self.timeout_ms, 5000))
         r = self._check(neg)
         self.solver.set("timeout", self.timeout_ms)
-        if r == z3.unknown:
+        if r == z3.unknown and getattr(self, "retry_unknown", True):
             # second opinion: cvc5 (decides the string obligations z3 leaves open); then one z3 retry with a 4x budget
             r2 = cvc5_check(self.smt2(neg), 60 if stringy else 20)
             if r2 is not None:
@@ -333,7 +343,7 @@ def _pyval(v):
     return str(v)
 
 
-def explore(harness, max_paths=20000, timeout_ms=SOLVER_TIMEOUT_MS):
+def explore(harness, max_paths=20000, timeout_ms=SOLVER_TIMEOUT_MS, retry_unknown=True):
     """Run `harness(ctx)` along every feasible path.  Returns (list of finished ctxs, stats)."""
     stats = Stats()
     work = [[]]
@@ -343,6 +353,7 @@ def explore(harness, max_paths=20000, timeout_ms=SOLVER_TIMEOUT_MS):
         if stats.paths >= max_paths:
             raise Unsupported(f"path budget {max_paths} exhausted")
         ctx = Ctx(dec, stats, timeout_ms)
+        ctx.retry_unknown = retry_unknown
         ctx.end = "complete"
         try:
             harness(ctx)
